@@ -4,7 +4,13 @@ package saml
 
 // Harness_C15_roundtrip: for every int64 nanosecond duration d (other than the
 // most negative value, decided separately), UnmarshalText(MarshalText(d)) == d.
-func Harness_C15_roundtrip() {
+func Harness_C15_roundtrip() { verifC15Roundtrip() }
+
+// Harness_C15_digits: the same obligation decided with the numerals modelled digit by digit (every
+// string operation works position by position, so it does not depend on how the text is produced).
+func Harness_C15_digits() { verifC15Roundtrip() }
+
+func verifC15Roundtrip() {
 	// |d| < 2^63 (the most negative value is Harness_C15_minint); the sign is a separate choice
 	mag := verifNondetInt64("magnitude")
 	verifAssume(mag >= 0)
